@@ -21,6 +21,8 @@ structure TxInv (cfg : Cfg) (tx : Tx) (size : SizeChan) (accepted : Bytes) (anno
   sizeSent : ∀ m, size = .sent m → announced = some m
   unknownFresh : tx.mode = .unknown → announced = none ∧ ∀ m, size ≠ .sent m
   unknownCfg : tx.mode = .unknown → cfg.fixed = none
+  /-- on an unsized channel the mode becomes `Known` only by a shutdown, which announces -/
+  knownAnn : cfg.fixed = none → ∀ e, tx.mode = .known e → ∃ m, announced = some m
 
 /-- Accounting of the accepted bytes. -/
 structure Acct (accepted received held : Bytes) (data : List Bytes) (inFlight : Bytes)
@@ -52,9 +54,10 @@ structure Inv (cfg : Cfg) (s : State) : Prop where
   rx : RxInv cfg s.rx s.received s.announced s.eofSeen
 
 theorem inv_init (cfg : Cfg) : Inv cfg (init cfg) := by
-  refine ⟨⟨?_, ?_, ?_, ?_, ?_, ?_, ?_⟩, ⟨?_, ?_, ?_⟩, ⟨?_, ?_, ?_, ?_, ?_, ?_, ?_, ?_⟩⟩ <;>
+  refine ⟨⟨?_, ?_, ?_, ?_, ?_, ?_, ?_, ?_⟩, ⟨?_, ?_, ?_⟩, ⟨?_, ?_, ?_, ?_, ?_, ?_, ?_, ?_⟩⟩ <;>
     simp [init, Rx.held, Tx.inFlight]
   · cases hf : cfg.fixed <;> simp [modeOf]
+  · intro hf; simp [hf, modeOf]
   · intro N h; simp [h, infoOf]
   · intro h; simp [h, infoOf]
   · cases hf : cfg.fixed <;> simp [infoOf]
@@ -77,9 +80,9 @@ theorem txComplete_frame {t t' : Tx} {c c' : Chan} {e : Option Err} (hc : txComp
 
 theorem handOver_inv {cfg : Cfg} {s : State} {e : Option Err} {t : Tx} {c : Chan}
     (h : Inv cfg s) (hc : txComplete s.tx s.ch = (e, t, c)) : Inv cfg (s.handOver t c) := by
-  obtain ⟨⟨bw, modeOpen, fixedBound, ann, sizeSent, unknownFresh, unknownCfg⟩, ⟨pre, exact, openLossless⟩, hrx⟩ := h
+  obtain ⟨⟨bw, modeOpen, fixedBound, ann, sizeSent, unknownFresh, unknownCfg, knownAnn⟩, ⟨pre, exact, openLossless⟩, hrx⟩ := h
   obtain ⟨_, hmode, hbw, hsend, hsize, _, _, hopen, _, _⟩ := txComplete_frame hc
-  refine ⟨⟨?_, ?_, fixedBound, ?_, ?_, ?_, ?_⟩, ?_, hrx⟩
+  refine ⟨⟨?_, ?_, fixedBound, ?_, ?_, ?_, ?_, ?_⟩, ?_, hrx⟩
   · simpa [State.handOver, hbw] using bw
   · intro hb; simpa [State.handOver, hmode] using modeOpen (hopen hb)
   · intro m hm
@@ -91,6 +94,7 @@ theorem handOver_inv {cfg : Cfg} {s : State} {e : Option Err} {t : Tx} {c : Chan
   · simpa [State.handOver, hsize] using sizeSent
   · simpa [State.handOver, hsize, hmode] using unknownFresh
   · simpa [State.handOver, hmode] using unknownCfg
+  · simpa [State.handOver, hmode] using knownAnn
   · -- accounting
     rcases txComplete_cases s.tx s.ch with ⟨hs, hr⟩ | ⟨m, hs, hn, hr⟩ | ⟨m, hs, hn, hd, hr⟩ | ⟨m, hs, hn, hd, hr⟩
     all_goals (rw [hr] at hc; simp only [Prod.mk.injEq] at hc; obtain ⟨rfl, rfl, rfl⟩ := hc)
@@ -150,10 +154,10 @@ def acceptedOf (bs : Bytes) : WRes → Bytes
 theorem writeCore_inv {cfg : Cfg} {s : State} {bs : Bytes} {res : WRes} {t : Tx}
     (h : Inv cfg s) (hs : s.tx.sending = none) (hw : writeCore cfg.chunk bs s.tx = (res, t)) :
     Inv cfg { s with tx := t, accepted := s.accepted ++ acceptedOf bs res } := by
-  obtain ⟨⟨bw, modeOpen, fixedBound, ann, sizeSent, unknownFresh, unknownCfg⟩, ⟨pre, exact, openLossless⟩, hrx⟩ := h
+  obtain ⟨⟨bw, modeOpen, fixedBound, ann, sizeSent, unknownFresh, unknownCfg, knownAnn⟩, ⟨pre, exact, openLossless⟩, hrx⟩ := h
   have hin : s.tx.inFlight = [] := by simp [Tx.inFlight, hs]
   have same : Inv cfg { s with tx := s.tx, accepted := s.accepted ++ [] } := by
-    refine ⟨⟨?_, modeOpen, ?_, ?_, sizeSent, unknownFresh, unknownCfg⟩, ⟨?_, ?_, openLossless⟩, hrx⟩
+    refine ⟨⟨?_, modeOpen, ?_, ?_, sizeSent, unknownFresh, unknownCfg, knownAnn⟩, ⟨?_, ?_, openLossless⟩, hrx⟩
     · simpa using bw
     · simpa using fixedBound
     · simpa using ann
@@ -174,7 +178,7 @@ theorem writeCore_inv {cfg : Cfg} {s : State} {bs : Bytes} {res : WRes} {t : Tx}
       | some N => rw [hf] at hmo; simp [modeOf] at hmo; rw [hmo]
     have hnle : n ≤ bs.length := by omega
     have hlen : (bs.take n).length = n := by simp [List.length_take]; omega
-    refine ⟨⟨?_, ?_, ?_, ?_, sizeSent, ?_, ?_⟩, ⟨?_, ?_, openLossless⟩, hrx⟩
+    refine ⟨⟨?_, ?_, ?_, ?_, sizeSent, ?_, ?_, ?_⟩, ⟨?_, ?_, openLossless⟩, hrx⟩
     · simp [acceptedOf, hlen, bw]
     · intro _; simpa [hm] using hmo
     · intro N hN
@@ -185,6 +189,7 @@ theorem writeCore_inv {cfg : Cfg} {s : State} {bs : Bytes} {res : WRes} {t : Tx}
       rw [hfix] at this; cases this
     · intro hu; simp [hm] at hu
     · intro hu; simp [hm] at hu
+    · intro hf; rw [hfix] at hf; cases hf
     · obtain ⟨rest, hrest⟩ := pre
       refine ⟨rest ++ bs.take n, ?_⟩
       show s.accepted ++ bs.take n = s.received ++ s.rx.held ++ s.ch.data.flatten ++ (rest ++ bs.take n)
@@ -202,7 +207,7 @@ theorem writeCore_inv {cfg : Cfg} {s : State} {bs : Bytes} {res : WRes} {t : Tx}
       | none => rfl
       | some N => rw [hf] at hmo; simp [modeOf] at hmo
     have hlen : (bs.take n).length = n := by simp [List.length_take]; omega
-    refine ⟨⟨?_, ?_, ?_, ?_, sizeSent, ?_, ?_⟩, ⟨?_, ?_, openLossless⟩, hrx⟩
+    refine ⟨⟨?_, ?_, ?_, ?_, sizeSent, ?_, ?_, ?_⟩, ⟨?_, ?_, openLossless⟩, hrx⟩
     · simp [acceptedOf, hlen, bw]
     · intro _; simpa [hm] using hmo
     · intro N hN; rw [hfix] at hN; cases hN
@@ -211,6 +216,7 @@ theorem writeCore_inv {cfg : Cfg} {s : State} {bs : Bytes} {res : WRes} {t : Tx}
       rw [this] at hmm; cases hmm
     · intro _; exact unknownFresh hm
     · intro _; exact hfix
+    · intro _ e he; simp [hm] at he
     · obtain ⟨rest, hrest⟩ := pre
       refine ⟨rest ++ bs.take n, ?_⟩
       show s.accepted ++ bs.take n = s.received ++ s.rx.held ++ s.ch.data.flatten ++ (rest ++ bs.take n)
@@ -248,7 +254,7 @@ def announcedBy (s : State) : Option Nat :=
 theorem shutdownCore_inv {cfg : Cfg} {s : State} {e : Option Err} {t : Tx} {c : Chan}
     (h : Inv cfg s) (hs : s.tx.sending = none) (hw : shutdownCore s.tx s.ch = (e, t, c)) :
     Inv cfg { s with tx := t, ch := c, announced := announcedBy s } := by
-  obtain ⟨⟨bw, modeOpen, fixedBound, ann, sizeSent, unknownFresh, unknownCfg⟩, ⟨pre, exact, openLossless⟩,
+  obtain ⟨⟨bw, modeOpen, fixedBound, ann, sizeSent, unknownFresh, unknownCfg, knownAnn⟩, ⟨pre, exact, openLossless⟩,
     ⟨br, infoSized, infoUnsized, eofV, eofS, taken, verTaken, recvBuf⟩⟩ := h
   have hne := closeData_dataEnd_ne_open s.ch
   -- the parts that do not depend on the case
@@ -263,19 +269,21 @@ theorem shutdownCore_inv {cfg : Cfg} {s : State} {e : Option Err} {t : Tx} {c : 
   all_goals (rw [hr] at hw; simp only [Prod.mk.injEq] at hw; obtain ⟨rfl, rfl, rfl⟩ := hw)
   · have ha : announcedBy s = s.announced := by simp [announcedBy, hm]
     rw [ha]
-    refine ⟨⟨bw, by simp, fixedBound, ?_, by simpa using sizeSent, by simp, by simp⟩,
+    refine ⟨⟨bw, by simp, fixedBound, ?_, by simpa using sizeSent, by simp, by simp, ?_⟩,
       hacct _ (by simp) hne _ (by simp [hs]), ⟨br, infoSized, infoUnsized, eofV, eofS, taken, verTaken, recvBuf⟩⟩
-    intro m hmm; obtain ⟨h1, _, h3⟩ := ann m hmm; exact ⟨h1, rfl, h3⟩
+    · intro m hmm; obtain ⟨h1, _, h3⟩ := ann m hmm; exact ⟨h1, rfl, h3⟩
+    · intro hf _ _; exact knownAnn hf x hm
   · have ha : announcedBy s = s.announced := by simp [announcedBy, hm]
     rw [ha]
-    refine ⟨⟨bw, by simp, fixedBound, ?_, by simpa using sizeSent, by simp, by simp⟩,
+    refine ⟨⟨bw, by simp, fixedBound, ?_, by simpa using sizeSent, by simp, by simp, ?_⟩,
       hacct _ (by simp) hne _ (by simp [hs]), ⟨br, infoSized, infoUnsized, eofV, eofS, taken, verTaken, recvBuf⟩⟩
-    intro m hmm; obtain ⟨h1, _, h3⟩ := ann m hmm; exact ⟨h1, rfl, h3⟩
+    · intro m hmm; obtain ⟨h1, _, h3⟩ := ann m hmm; exact ⟨h1, rfl, h3⟩
+    · intro hf _ _; exact knownAnn hf x hm
   · have ha : announcedBy s = some s.tx.bytesWritten := by simp [announcedBy, hm]
     have hfix := unknownCfg hm
     have hnone := (unknownFresh hm).1
     rw [ha]
-    refine ⟨⟨bw, by simp, fixedBound, ?_, ?_, by simp, by simp⟩,
+    refine ⟨⟨bw, by simp, fixedBound, ?_, ?_, by simp, by simp, (fun _ _ _ => ⟨_, rfl⟩)⟩,
       hacct _ (by simp) (by simpa using hne) _ (by simp [hs]), ⟨br, infoSized, ?_, ?_, eofS, taken, verTaken, recvBuf⟩⟩
     · intro m hmm; simp at hmm; exact ⟨by show m = s.accepted.length; rw [← hmm]; exact bw, rfl, hfix⟩
     · intro m hmm; simp at hmm; simp [hmm]
@@ -288,7 +296,7 @@ theorem shutdownCore_inv {cfg : Cfg} {s : State} {e : Option Err} {t : Tx} {c : 
     have hfix := unknownCfg hm
     have hnone := (unknownFresh hm).1
     rw [ha]
-    refine ⟨⟨bw, by simp, fixedBound, ?_, ?_, by simp, by simp⟩,
+    refine ⟨⟨bw, by simp, fixedBound, ?_, ?_, by simp, by simp, (fun _ _ _ => ⟨_, rfl⟩)⟩,
       hacct _ (by simp) hne _ (by simp [hs]), ⟨br, infoSized, ?_, ?_, eofS, taken, verTaken, recvBuf⟩⟩
     · intro m hmm; simp at hmm; exact ⟨by show m = s.accepted.length; rw [← hmm]; exact bw, rfl, hfix⟩
     · intro m hmm; simp at hmm; exact absurd hmm ((unknownFresh hm).2 m)
@@ -310,10 +318,10 @@ theorem rxComplete_inv {cfg : Cfg} {s : State} {k : Complete} {r : Rx} {c : Chan
     (h : Inv cfg s) (hc : rxComplete s.rx s.ch = (k, r, c)) :
     Inv cfg { s with rx := r, ch := c } ∧ (s.rx.eofVerified = true → r.eofVerified = true) ∧
     (k = .cont → r.phase = .idle) ∧ r.alive = s.rx.alive := by
-  obtain ⟨⟨bw, modeOpen, fixedBound, ann, sizeSent, unknownFresh, unknownCfg⟩, ⟨pre, exact, openLossless⟩,
+  obtain ⟨⟨bw, modeOpen, fixedBound, ann, sizeSent, unknownFresh, unknownCfg, knownAnn⟩, ⟨pre, exact, openLossless⟩,
     ⟨br, infoSized, infoUnsized, eofV, eofS, taken, verTaken, recvBuf⟩⟩ := h
   have htx : TxInv cfg s.tx s.ch.size s.accepted s.announced :=
-    ⟨bw, modeOpen, fixedBound, ann, sizeSent, unknownFresh, unknownCfg⟩
+    ⟨bw, modeOpen, fixedBound, ann, sizeSent, unknownFresh, unknownCfg, knownAnn⟩
   rcases rxComplete_cases s.rx s.ch with ⟨hp, hr⟩ | ⟨m, rest, hp, hd, hr⟩ | ⟨hp, hd, he, hr⟩ | ⟨hp, hd, he, hr⟩ |
     ⟨hp, hd, he, hr⟩ | ⟨hp, hz, hr⟩ | ⟨m, hp, hz, hne, hr⟩ | ⟨m, hp, hz, heq, hr⟩ | ⟨hp, hz, hr⟩
   all_goals (rw [hr] at hc; simp only [Prod.mk.injEq] at hc; obtain ⟨rfl, rfl, rfl⟩ := hc)
@@ -673,10 +681,10 @@ theorem inv_step {cfg : Cfg} {s s' : State} {l : Label} {o : Out}
     split at hs
     · simp only [Option.some.injEq, Prod.mk.injEq] at hs
       obtain ⟨_, rfl⟩ := hs
-      obtain ⟨⟨bw, modeOpen, fixedBound, ann, sizeSent, unknownFresh, unknownCfg⟩, ⟨pre, exact, openLossless⟩, hrx⟩ := h
+      obtain ⟨⟨bw, modeOpen, fixedBound, ann, sizeSent, unknownFresh, unknownCfg, knownAnn⟩, ⟨pre, exact, openLossless⟩, hrx⟩ := h
       have hne := closeData_dataEnd_ne_open s.ch
       obtain ⟨hsz, hde, hda⟩ := dropTxChan_facts s.tx s.ch
-      refine ⟨⟨bw, by simp, fixedBound, ?_, ?_, ?_, unknownCfg⟩, ⟨?_, ?_, fun h => absurd h hde⟩, hrx⟩
+      refine ⟨⟨bw, by simp, fixedBound, ?_, ?_, ?_, unknownCfg, knownAnn⟩, ⟨?_, ?_, fun h => absurd h hde⟩, hrx⟩
       · intro m hm; obtain ⟨h1, _, h3⟩ := ann m hm; exact ⟨h1, rfl, h3⟩
       · intro m hm; exact sizeSent m (hsz m hm)
       · intro hm; exact ⟨(unknownFresh hm).1, fun m hmm => (unknownFresh hm).2 m (hsz m hmm)⟩
@@ -721,11 +729,11 @@ theorem inv_step {cfg : Cfg} {s s' : State} {l : Label} {o : Out}
     · cases hs
     · simp only [Option.some.injEq, Prod.mk.injEq] at hs
       obtain ⟨_, rfl⟩ := hs
-      obtain ⟨⟨bw, modeOpen, fixedBound, ann, sizeSent, unknownFresh, unknownCfg⟩, ⟨pre, exact, openLossless⟩, hrx⟩ := h
+      obtain ⟨⟨bw, modeOpen, fixedBound, ann, sizeSent, unknownFresh, unknownCfg, knownAnn⟩, ⟨pre, exact, openLossless⟩, hrx⟩ := h
       have hsz : ∀ m, (match s.ch.size with | .pending => SizeChan.broken | x => x) = .sent m → s.ch.size = .sent m := by
         intro m; cases s.ch.size <;> simp
       refine ⟨⟨bw, modeOpen, fixedBound, ann, fun m hm => sizeSent m (hsz m hm),
-        fun hm => ⟨(unknownFresh hm).1, fun m hmm => (unknownFresh hm).2 m (hsz m hmm)⟩, unknownCfg⟩,
+        fun hm => ⟨(unknownFresh hm).1, fun m hmm => (unknownFresh hm).2 m (hsz m hmm)⟩, unknownCfg, knownAnn⟩,
         ⟨pre, exact, ?_⟩, hrx⟩
       intro hd
       apply openLossless
@@ -773,9 +781,9 @@ theorem inv_step {cfg : Cfg} {s s' : State} {l : Label} {o : Out}
     · split at hs
       · simp only [Option.some.injEq, Prod.mk.injEq] at hs
         obtain ⟨_, rfl⟩ := hs
-        obtain ⟨⟨bw, modeOpen, fixedBound, ann, sizeSent, unknownFresh, unknownCfg⟩, hacct, hrx⟩ := h
+        obtain ⟨⟨bw, modeOpen, fixedBound, ann, sizeSent, unknownFresh, unknownCfg, knownAnn⟩, hacct, hrx⟩ := h
         exact ⟨⟨bw, modeOpen, fixedBound, ann, (fun m hm => by cases hm),
-          (fun hm => ⟨(unknownFresh hm).1, (fun m hmm => by cases hmm)⟩), unknownCfg⟩, hacct, hrx⟩
+          (fun hm => ⟨(unknownFresh hm).1, (fun m hmm => by cases hmm)⟩), unknownCfg, knownAnn⟩, hacct, hrx⟩
       · cases hs
     · cases hs
   | sever =>
